@@ -212,6 +212,8 @@ def run_history(res, c, scratch, rng):
             s.db.close()
             compare({"op": "close"})
         res.count("histories")
+        if len(res.samples) < 3 and len(s.log) > 6:
+            res.sample({"config": label, "auto_index": cfg["auto_index"], "ops": [o if "q" not in o else dict(o, q=qast.show(o["q"])) for o in s.log[:7]]})
     finally:
         s.discard()
         twin.discard()
@@ -234,8 +236,6 @@ def run(res, tier, seed, shard, nshards):
                     continue
                 rng = rng_for("C04", tier, seed, shard, ci, h)
                 run_history(res, c, scratch, rng)
-        if shard == 0:
-            res.sample({"config": cfg_label(cs[17]), "ops": "insert(nasty) get insert(compact) update remove ... close"})
     res.require("file_comparisons")
     res.require("early_terminating_reads")
     res.require("compact_prefix_inserts")
